@@ -167,7 +167,7 @@ def main():
                                'conformance by replaying TLC-enumerated configurations into the real macro and validating recorded traces with TLC'},
         ],
         'checks': checks,
-        'notes': 'See DESIGN.md. known_findings.json lists fixed defects (11 fix: commits in /repo) and open findings.',
+        'notes': 'See DESIGN.md. known_findings.json lists fixed defects (12 fix: commits in /repo) and open findings.',
         'not_applicable': na,
     }
     with open(os.path.join(ROOT, 'MANIFEST.json'), 'w') as f:
